@@ -2,3 +2,4 @@
 pub mod kinds;
 pub mod layouts;
 pub mod glue;
+pub mod tracks;
